@@ -17,7 +17,7 @@ import threading
 
 from harness import common
 
-TIMEOUT = 30.0
+TIMEOUT = 8.0         # a group that does not come back within this is blocked (it takes milliseconds)
 _ENV = None
 
 
